@@ -102,7 +102,7 @@ PROPS = {
         "assumptions": CODEC_ASSUME + ["sync/atomic.AddUint32 is atomic (trusted); the statement-list facts of the constructors are regenerated from the source"],
     },
     "C05": {
-        "kind": "client", "modules": ["OAP.Props.C05"], "keys": ["do_returns_own_id", "first_wins", "err_mapping", "own_connection", "do_returns"],
+        "kind": "client", "conformance": True, "modules": ["OAP.Props.C05"], "keys": ["do_returns_own_id", "first_wins", "err_mapping", "own_connection", "do_returns"],
         "rule": "scenarios against scripted TCP and WebSocket peers (independent layout parser): k in {1,2,4,8,(32)} concurrent callers whose k requests "
                 "are answered in a seed-chosen permutation with unknown-id, duplicate and late responses in between; all 256 status codes x {valid "
                 "error body, garbage, empty}; stale answers across a reconnect; the C07 gate scenarios. Monitors: every Do returns the response "
@@ -110,14 +110,14 @@ PROPS = {
         "partial": "socket delivery order and the Go scheduler are runtime",
     },
     "C07": {
-        "kind": "client", "modules": ["OAP.Props.C07"], "keys": ["no_lost_wakeup"],
+        "kind": "client", "conformance": True, "modules": ["OAP.Props.C07"], "keys": ["no_lost_wakeup"],
         "rule": "directed schedule through the yield point after the hand-over to the transport (gate conn.write:enqueued): 1 and 3 concurrent callers "
                 "are parked there, the peer's immediate answers are read and dispatched (resp:lookup events awaited), then the callers are released: "
                 "each must return that response; plus 8 callers x 100 immediately answered requests without gates; both transports.",
         "partial": "'before the deadline' is wall-clock; if the caller is not scheduled before its deadline Go's select may take the deadline branch",
     },
     "C06": {
-        "kind": "client", "modules": ["OAP.Props.C06"], "keys": ["do_terminates", "no_panic", "timing"],
+        "kind": "client", "conformance": True, "modules": ["OAP.Props.C06"], "keys": ["do_terminates", "no_panic", "timing"],
         "rule": "fault scenarios on TCP and WebSocket: peer silent, drop, drop with authentication, server close packet / close frame, garbage, refused "
                 "dials (with and without auth), 'drop after k bytes of the response' for k = 0..12, keepalive-triggered recycling with requests in flight; "
                 "calls issued before, during and after the fault; every scenario in a subprocess under a watchdog with goroutine dump. Monitors: every "
@@ -165,7 +165,7 @@ PROPS = {
         "partial": "ticker jitter: real-time bounds with slack",
     },
     "C16": {
-        "kind": "client", "modules": ["OAP.Props.C16"], "keys": ["client_threads_exit", "sockets_released", "bounded_live"],
+        "kind": "client", "conformance": True, "modules": ["OAP.Props.C16"], "keys": ["client_threads_exit", "sockets_released", "bounded_live"],
         "rule": "cycle scenarios over {dial+close, dial+peer drop+recover+close, dial+server close packet+recover+close, failed dial}: library goroutines "
                 "(goroutine profile filtered to the client package) and sockets open at the peers after 2 cycles and after 10 more must not grow; plus "
                 "the C14 scenarios' end-state checks (no library goroutine, no open socket after Close).",
